@@ -218,7 +218,7 @@ let volatile_key (p : string) =
   (* values that differ from process to process *)
   let pre s = String.length p >= String.length s && String.sub p 0 (String.length s) = s in
   let hx s = String.concat "" (Stdlib.List.map (fun c -> Printf.sprintf "%02x" (Char.code c)) (Stdlib.List.init (String.length s) (String.get s))) in
-  pre (hx "cache") || pre (hx "cpu") || pre (hx "file" ^ "." ^ hx "fd") || pre (hx "file" ^ "." ^ hx "set")
+  pre (hx "cache") || pre (hx "file" ^ "." ^ hx "fd") || pre (hx "file" ^ "." ^ hx "set")
   || pre (hx "file" ^ "." ^ hx "mmap_cache") || pre (hx "file" ^ "." ^ hx "read_cache")
   || pre (hx "file" ^ "." ^ hx "mmap_policy") || pre (hx "file" ^ "." ^ hx "pagemap")
   || pre (hx "memory" ^ "." ^ hx "pagemap")
